@@ -140,7 +140,16 @@ pub fn behavior(max_depth: Option<usize>, follow: bool) -> WalkBehavior {
 fn gen_neg_expr(t: &mut Tape, names: &[String]) -> Expr {
     let name = |t: &mut Tape| Tok::lit(&t.pick(names));
     let tree_end = Tok::Tree { lead: true, trail: false };
-    let x: Vec<Tok> = match t.below(9) {
+    let prefix_of = |t: &mut Tape| -> Tok {
+        // first character of an existing name, so that `p*` matches some entries
+        let n = t.pick(names);
+        Tok::lit(&n.chars().next().map(String::from).unwrap_or_else(|| "a".into()))
+    };
+    let x: Vec<Tok> = match t.below(13) {
+        9 => vec![Tok::Alt(vec![vec![prefix_of(t), Tok::Zom { lazy: false }]])],
+        10 => vec![Tok::Alt(vec![vec![prefix_of(t), Tok::Zom { lazy: false }], vec![prefix_of(t), Tok::Zom { lazy: false }]])],
+        11 => vec![Tok::Rep { body: vec![prefix_of(t), Tok::Zom { lazy: false }], lo: 1, hi: Some(2), spell: 0 }],
+        12 => vec![Tok::Alt(vec![vec![Tok::Zom { lazy: false }, prefix_of(t)]])],
         0 => vec![name(t)],
         1 => vec![Tok::Alt(vec![vec![name(t)]])],
         2 => vec![Tok::Alt(vec![vec![name(t)], vec![name(t)]])],
